@@ -92,6 +92,7 @@ def OneW : Choice → Prop
   | .handover w => w = 0
   | .broker w _ => w = 0
   | .deliver w _ => w = 0
+  | .closeW _ => False   -- outside the single-worker scope (see Props/C02chain.lean)
   | _ => True
 
 end Lemmas.C02sys
